@@ -14,6 +14,8 @@ McCat(T) == CASE T \in {"int32", "metaptr"} -> "fixed" [] T = "tracked" -> "clas
 McSize(T) == CASE T = "int32" -> 4 [] T = "tracked" -> 4 [] T = "pod3" -> 3 [] T = "span3" -> 16 [] OTHER -> 8
 McFixedId(T) == CASE T = "int32" -> 1 [] T = "metaptr" -> 20 [] OTHER -> 0
 McName(T) == IF T = "genptr" THEN "generic" ELSE ""
+McClassK(T) == CASE T = "genptr" -> "generic" [] T = "mval" -> "tmpl" [] OTHER -> ""
+McClassT(T) == IF T = "mval" THEN "tracked" ELSE ""
 
 McNext == CxxNext \/ (RawNext(RawSizes, RawNames, McProbe, MetaBase, GenBase + GenCap - 1) /\ CKeep)
 McSpec == CInit /\ [][McNext]_cvars
